@@ -21,7 +21,9 @@ func (v *ValFix) SignVote(hash common.Hash, round uint64, index uint32) []byte {
 }
 
 // SignerIdx is the index of a validator in the look-back validator set of `round`.
-func SignerIdx(n *Node, v *ValFix, round uint64) (uint32, bool) { return SignerIdxFor(n, v, round, false) }
+func SignerIdx(n *Node, v *ValFix, round uint64) (uint32, bool) {
+	return SignerIdxFor(n, v, round, false)
+}
 
 // SignerIdxFor: cert=true resolves the index in the certificate look-back set (what certificate votes refer to).
 func SignerIdxFor(n *Node, v *ValFix, round uint64, cert bool) (uint32, bool) {
